@@ -231,11 +231,10 @@ def ob_d(ob):
 
 
 # ---- shared obligation: the mean kinetic temperature equals the target only under the true number of degrees of freedom, which starts from the number of real atoms ----
-from . import C13 as _C13_mod  # noqa: E402
-
-
-@obligation(PID, "e", title="[shared with C13.e] " + [e for e in __import__("engine.ob", fromlist=["REGISTRY"]).REGISTRY["C13"] if e[1] is _C13_mod.ob_e][0][3])
+@obligation(PID, "e", title="[shared with C13.e] the atom count behind the degrees of freedom (Molecule.num_atoms) is the number of non-padding atoms of each batch row, however the Parser files them (hydrogen / heavy / d-orbital 'super-heavy'), and padding atoms get zero inverse mass")
 def ob_e_shared(ob):
     """the mean kinetic temperature equals the target only under the true number of degrees of freedom, which starts from the number of real atoms"""
+    from . import C13 as _m  # imported lazily: the harness modules share obligations in both directions
+
     ob.note("this obligation is the one registered as C13.e; it is also decided here because the mean kinetic temperature equals the target only under the true number of degrees of freedom, which starts from the number of real atoms")
-    _C13_mod.ob_e(ob)
+    _m.ob_e(ob)
